@@ -27,7 +27,7 @@ from concurrent.futures import ProcessPoolExecutor, wait, FIRST_COMPLETED
 import multiprocessing as mp
 
 VERIF_DIR = os.path.dirname(os.path.dirname(os.path.abspath(__file__)))
-REPO_DIR = "/repo"
+REPO_DIR = os.environ.get("VERIF_REPO", "/repo")
 PY = sys.executable
 
 DEFAULT_SEED = {"quick": 20261001, "thorough": 20261002}
@@ -672,8 +672,9 @@ def drive(check_id: str, tier: str, master: int | None, workers: int | None = No
                 small = plan
                 conf2 = conf
             ff = [x for x in conf2["failures"] if x["cls"] == cls][0]
-            os.makedirs(os.path.join(VERIF_DIR, "replays"), exist_ok=True)
-            path = os.path.join(VERIF_DIR, "replays", f"{check_id}-{plan['seed']}-{_slug(cls)}.json")
+            repdir = os.environ.get("VERIF_REPLAY_DIR", os.path.join(VERIF_DIR, "replays"))
+            os.makedirs(repdir, exist_ok=True)
+            path = os.path.join(repdir, f"{check_id}-{plan['seed']}-{_slug(cls)}.json")
             with open(path, "w") as fh:
                 json.dump({"property": check_id, "seed": plan["seed"], "master_seed": master, "index": plan["index"],
                            "violation_class": cls, "first_failure": ff, "minimised_plan": small,
@@ -816,8 +817,9 @@ def write_evidence(check_id, check, tier, master, br, wall, wall_batch, det, kno
         jsonschema.validate(ev, schema)
     except jsonschema.ValidationError as e:
         raise HarnessError(f"evidence does not validate: {e.message}")
-    os.makedirs(os.path.join(VERIF_DIR, "evidence"), exist_ok=True)
-    with open(os.path.join(VERIF_DIR, "evidence", f"{check_id}.json"), "w") as f:
+    evdir = os.environ.get("VERIF_EVIDENCE_DIR", os.path.join(VERIF_DIR, "evidence"))  # override: dev runs on mutants only
+    os.makedirs(evdir, exist_ok=True)
+    with open(os.path.join(evdir, f"{check_id}.json"), "w") as f:
         json.dump(ev, f, indent=1, sort_keys=True)
 
 
